@@ -44,6 +44,8 @@ class OrderFacts:
     def __init__(self, ctx: Ctx, f: Func, start: str, x0: str, d: str):
         self.f, self.start, self.x0, self.d = f, start, x0, d
         self.cfg: CFG = ctx.cfg(f)
+        from ..flow import Expander
+        self.exp = Expander(ctx, f)
         self.tmp_points = {}
         init = frozenset([("LE", start)])
         self.IN, self.OUT = forward(self.cfg, init, self._transfer, lambda a, b: a & b, self._refine, follow_exc=False)
@@ -112,11 +114,7 @@ class OrderFacts:
                 tg = s_ast.targets[0] if isinstance(s_ast, ast.Assign) else getattr(s_ast, "target", None)
                 first = tg.elts[0] if isinstance(tg, ast.Tuple) else tg
                 if isinstance(first, ast.Name) and first.id == k:
-                    pt = c.args[0]
-                    if isinstance(pt, ast.Name):
-                        # point computed once into a temporary
-                        for dn, dv, _ in [(x, y, z) for x in self.cfg.nodes for kk, y, z in node_defs(x) if kk == pt.id and y is not None]:
-                            pt = dv
+                    pt = self.exp.expand(n, c.args[0], 6)    # temporaries / small helpers inlined
                     s = _step_of_point(pt, self.x0, self.d)
                     if s is not None and s not in killed:
                         out.add(("EVAL", k, s))
